@@ -1053,10 +1053,24 @@ func c8LostUpdatePhase(r *verifkit.R, phase string, kinds []string, n int) {
 			}()
 		}
 		removed, slow := 0, false
+		byDisconnect := (ci/2)%2 == 1
+		during := "cleanup"
+		if byDisconnect {
+			during = "disconnect"
+			r.Add("lostupd_disconnect_episodes", 1)
+		}
 		wg.Add(1)
 		go func() {
 			defer wg.Done()
 			<-start
+			if byDisconnect {
+				// round 5: the stale routes all have next hop Q; Q disconnects while the adders
+				// (other next hops) write to the same keys. No clock is involved in this mode.
+				for _, k := range kinds {
+					removed += rig.tabs[k].Disconnect(q)
+				}
+				return
+			}
 			for c := 0; c < 2; c++ {
 				for _, k := range kinds {
 					t1 := time.Now()
@@ -1101,11 +1115,11 @@ func c8LostUpdatePhase(r *verifkit.R, phase string, kinds []string, n int) {
 				got := idx[e.Kind][id]
 				switch {
 				case got == nil:
-					r.Violation("conc:accepted-route-lost-during-cleanup", phase, ci,
-						fmt.Sprintf("%s was submitted after every older route of its origin (strictly increasing sequence) and is not stored; a stale cleanup of OTHER, older routes ran concurrently", e.show(w)), wit())
+					r.Violation("conc:accepted-route-lost-during-"+during, phase, ci,
+						fmt.Sprintf("%s was submitted after every older route of its origin (strictly increasing sequence) and is not stored; a %s of OTHER, older routes (next hop Q) ran concurrently", e.show(w), during), wit())
 				case got.Seq != want.Seq || got.Metric != want.Metric:
-					r.Violation("conc:accepted-update-rolled-back-during-cleanup", phase, ci,
-						fmt.Sprintf("the last submission %s is stored as %s after a concurrent stale cleanup", e.show(w), got.show(w)), wit())
+					r.Violation("conc:accepted-update-rolled-back-during-"+during, phase, ci,
+						fmt.Sprintf("the last submission %s is stored as %s after a concurrent %s", e.show(w), got.show(w), during), wit())
 				}
 				kk := e.Kind + "|" + e.Key
 				if m, ok := best[kk]; !ok || int(want.Metric) < m {
@@ -1119,7 +1133,7 @@ func c8LostUpdatePhase(r *verifkit.R, phase string, kinds []string, n int) {
 			e := protos[kk]
 			got, ok := c8LULookup(rig, &e)
 			if !ok || got > m {
-				r.Violation("conc:lookup-misses-accepted-route", phase, ci,
+				r.Violation("conc:lookup-misses-accepted-route"+map[bool]string{false: "", true: "-after-disconnect"}[byDisconnect], phase, ci,
 					fmt.Sprintf("lookup for %s %s returned (metric %d, found %v) although a route with metric %d was accepted for it and nothing could remove it", e.Kind, e.Raw, got, ok, m),
 					map[string]any{"via": rig.via(), "stored": c8ShowAll(w, snaps[e.Kind])})
 			}
